@@ -65,8 +65,11 @@ def n_handlers(m):
 def run(ctx):
     base = C.facts(ctx)
     variants = ["perm:rev"] if ctx.tier == "quick" else ["perm:rev", "perm:rot", f"perm:swap{ctx.seed % 5}", f"perm:swap{(ctx.seed + 2) % 5 + 1}"]
-    base_items = facts_by_item(ctx, base)
-    base_verdicts = verdicts(base)
+    # the witness packages computed from the generator's templates (vlib/dynwit.py) are not part of the permuted builds
+    dyn = set(getattr(base, "dyn_info", {}) or {})
+    dyn_crates = {c["key"] for c in base.crates if c.get("witness") and c["witness"]["package"] in dyn}
+    base_items = {k: v for k, v in facts_by_item(ctx, base).items() if not any(k.startswith(c.split(".")[0] + "::") for c in dyn_crates)}
+    base_verdicts = {k: v for k, v in verdicts(base).items() if k.split("@")[-1] not in dyn}
     for var in variants:
         fx = F.get_facts(ctx.tier, var)
         items = facts_by_item(ctx, fx)
